@@ -328,6 +328,9 @@ structure Cfg where
   fs : List Filter
   strongRedirects : Bool := true
   robots : Bool := false
+  /-- truthiness of `item_session.is_virtual` (False for every item of a crawl; True only for the
+  proxy coprocessor's pseudo items) -/
+  virtual : Bool := false
 
 /-- What the robots.txt checker does when it is asked about a URL
 (`FetchRule.consult_robots_txt`). -/
@@ -356,6 +359,10 @@ def robotsGate (u : Info) (rob : RobotsOutcome) (rest : List Ev) : List Ev :=
   | .fetched false => [.robotsTxt u, .skip]
   | .error => [.robotsTxt u]
 
+/-- `FetchRule.check_subsequent_web_request`: the filters, then `if item_session.is_virtual: verdict = True`. -/
+def checkSubsequent (o : Oracles) (c : Cfg) (u : Info) (r : Rec) (isRedirect : Bool) : Bool :=
+  if c.virtual then true else consultOk o c.fs u r isRedirect
+
 /-- `WebProcessorSession._process_loop` with `_should_fetch_reason` inlined:
 `next` = `web_client_session.next_request().url_info`,
 `redir` = `redirect_tracker.is_redirect()`, `rob` = the checker's behaviour for `next`.
@@ -363,7 +370,7 @@ First the filters; for an accepted redirect target then robots.txt (if a checker
 configured); then the fetch. -/
 def webLoop (o : Oracles) (c : Cfg) (r : Rec) : Info → Bool → RobotsOutcome → List Resp → List Ev
   | next, redir, rob, resps =>
-    if !consultOk o c.fs next r (c.strongRedirects && redir) then [.skip]
+    if !checkSubsequent o c next r (c.strongRedirects && redir) then [.skip]
     else
       let go : List Ev :=
         .request next (c.strongRedirects && redir) ::
@@ -481,6 +488,19 @@ def addExtraUrls (sitemaps : Bool) (r : Rec) (item robotsTxt sitemapXml : Info) 
   if r.level == 0 && sitemaps then
     [(httpChildRecord r item ⟨false, robotsTxt⟩, robotsTxt), (httpChildRecord r item ⟨false, sitemapXml⟩, sitemapXml)]
   else []
+
+/-! ### the try counter (`BaseSQLURLTable.check_in`) -/
+
+/-- `check_in(url, status, increment_try_count, url_result)`: the result columns are written if a result is
+given, and - independently - the counter is incremented if asked. -/
+def checkInTryCount (tryCount : Nat) (hasResult increment : Bool) : Nat :=
+  let _written := hasResult
+  if increment then tryCount + 1 else tryCount
+
+/-- the stored try count after `n` counted visits (`set_status` always passes a result and asks for the increment) -/
+def tryCountAfter : Nat → Nat
+  | 0 => 0
+  | n + 1 => checkInTryCount (tryCountAfter n) true true
 
 /-! ### comma separated option values (`AppArgumentParser.comma_list`) -/
 
